@@ -8,10 +8,46 @@ namespace Neigh
 /-- `f` only rearranges its argument (Go map iteration order, `rand.Shuffle`). -/
 def Rearranges {α : Type} (f : List α → List α) : Prop := ∀ l, (f l).Perm l
 
-/-- Go maps have distinct keys: the representation invariant of the two score maps. -/
-def State.WF (st : State) : Prop := st.seeds.keys.Nodup ∧ st.scores.keys.Nodup
+/-! ### hypotheses on the parameters (what is used of `net.SplitHostPort` / `net.JoinHostPort`) -/
 
-instance (st : State) : Decidable st.WF := by unfold State.WF; exact inferInstance
+/-- Joining what was split splits back to the same pair.  Holds for the Go functions: a host returned by
+`SplitHostPort` contains no `[`/`]` and contains `:` only if it was bracketed, a returned port contains
+none of `:`, `[`, `]`; `JoinHostPort` brackets the host iff it contains `:` or `%`; so `SplitHostPort` of
+the joined string finds the same separator.  Checked by `runeigh` on every generated target. -/
+def Env.RoundTrip (env : Env) : Prop :=
+  ∀ v ip port, env.parse v = some (ip, port) → env.parse (env.join ip port) = some (ip, port)
+
+/-- The sender created for `(ip, port)` reports `JoinHostPort(ip, port)` as its `Target()`.  True of
+`p2p.NewNeighbor(ip, port)`; the production factory first replaces `ip` by `LookupIP(ip)`, so for host NAMES
+this is an assumption (out of scope of C17's repair; numeric addresses look up to themselves). -/
+def Env.TargetIsJoin (env : Env) : Prop :=
+  ∀ ip port, env.senderTarget ip port = env.join ip port
+
+/-- `k` is in canonical spelling: it is what `JoinHostPort` makes of its own `SplitHostPort`. -/
+def Canonical (env : Env) (k : String) : Prop :=
+  ∃ ip port, env.parse k = some (ip, port) ∧ env.join ip port = k
+
+def canonicalB (env : Env) (k : String) : Bool :=
+  match env.parse k with
+  | some (ip, port) => env.join ip port == k
+  | none => false
+
+theorem canonicalB_iff (env : Env) (k : String) : canonicalB env k = true ↔ Canonical env k := by
+  unfold canonicalB Canonical
+  split
+  · next ip port hp =>
+    rw [beq_iff_eq]
+    constructor
+    · intro h; exact ⟨ip, port, hp, h⟩
+    · rintro ⟨ip', port', hp', h⟩
+      rw [hp] at hp'; cases hp'; exact h
+  · next hp =>
+    constructor
+    · intro h; cases h
+    · rintro ⟨ip', port', hp', _⟩; rw [hp] at hp'; cases hp'
+
+instance (env : Env) (k : String) : Decidable (Canonical env k) :=
+  decidable_of_iff _ (canonicalB_iff env k)
 
 /-- `value` is a target the node can select in this round: it is in the map the round iterates over
 (the known targets, or the seeds when none is known) with score `score`, it is not the host's own
@@ -32,6 +68,12 @@ def candidateValues (env : Env) (reachable : String → String → Bool) (st : S
 /-- `value` is well-formed and on the host's network (what `AddTargets` requires). -/
 def Acceptable (env : Env) (st : State) (value : String) : Prop :=
   ∃ ip port, env.parse value = some (ip, port) ∧ networkId port = networkId st.hostPort
+
+/-- The announced string `value` is well-formed and on the host's network, and `key` is its canonical
+spelling (the key under which `AddTargets` / `Incentive` file it). -/
+def AcceptedAs (env : Env) (st : State) (value key : String) : Prop :=
+  ∃ ip port, env.parse value = some (ip, port) ∧ key = env.join ip port ∧
+    networkId port = networkId st.hostPort
 
 /-- `Acceptable` as a test on the parse result -/
 def acceptableB (env : Env) (st : State) (value : String) : Bool :=
@@ -57,13 +99,23 @@ theorem acceptableB_iff (env : Env) (st : State) (value : String) :
 instance (env : Env) (st : State) (value : String) : Decidable (Acceptable env st value) :=
   decidable_of_iff _ (acceptableB_iff env st value)
 
+/-- Representation invariant of every reachable state: Go maps have distinct keys; the seeds are in
+canonical spelling; every known target is in canonical spelling, well-formed and on the host's network;
+the host value is the joined host endpoint. -/
+def State.WF (env : Env) (st : State) : Prop :=
+  st.seeds.keys.Nodup ∧ st.scores.keys.Nodup ∧ (∀ k ∈ st.seeds.keys, Canonical env k) ∧
+    (∀ k ∈ st.scores.keys, Canonical env k ∧ Acceptable env st k) ∧
+    st.hostValue = env.join st.hostIp st.hostPort
+
+instance (env : Env) (st : State) : Decidable (st.WF env) := by unfold State.WF; exact inferInstance
+
 def Op.Valid : Op → Prop
   | .addTargets _ => True
   | .incentive _ => True
   | .synchronize _ order shuffle => Rearranges order ∧ Rearranges shuffle
 
-/-- Everything C17 says about one refresh round `r = synchronize … st`, in the reading that is true of
-the code (peers identified by announced target value; see `Neigh.Props` for the stronger readings). -/
+/-- Everything C17 says about one refresh round `r = synchronize … st` (peers identified by endpoint
+`(ip, port)`; the value-level clauses are kept because the endpoint-level ones are derived from them). -/
 structure RoundOK (env : Env) (reachable : String → String → Bool) (st : State)
     (r : State × Outcome) : Prop where
   no_panic : r.2.isPanic = false
@@ -76,16 +128,18 @@ structure RoundOK (env : Env) (reachable : String → String → Bool) (st : Sta
       reachable ip port = true ∧ o = ⟨o.value, ip, port, env.senderTarget ip port⟩
   best : ∀ o ∈ r.1.senders, ∀ so, (o.value, so) ∈ st.source →
       ∀ v sv, IsCandidate env reachable st v sv → v ∉ r.1.senders.map (·.value) → sv ≤ so
+  distinct_endpoints : (r.1.senders.map (fun o => (o.ip, o.port))).Nodup
+  not_self_endpoint : ∀ o ∈ r.1.senders, (o.ip, o.port) ≠ (st.hostIp, st.hostPort)
   fanout : ∃ tv, tv.Perm (candidateValues env reachable st) ∧
-      r.2 = .ok (r.1.senders.map (fun o => (o, (st.hostValue :: tv).filter (fun v => o.target ≠ v))))
+      r.2 = .ok (r.1.senders.map (fun o => (o, (st.hostValue :: tv).filter (fun v => o.value ≠ v))))
   frame : r.1.scores = [] ∧ r.1.seeds = st.seeds ∧ r.1.max = st.max ∧ r.1.hostValue = st.hostValue ∧
       r.1.hostIp = st.hostIp ∧ r.1.hostPort = st.hostPort
 
-/-! ## a small concrete world for non-vacuity examples and counterexample witnesses
+/-! ## a small concrete world for the non-vacuity examples
 
-The parse table below is what the real `net.SplitHostPort` answers on these strings and `exTarget` is
-what `net.JoinHostPort` answers on the resulting pairs (both re-checked on the Go side by
-`runeigh --witnesses`).  Host: 10.0.0.9:10600 (mainnet). -/
+The parse table below is what the real `net.SplitHostPort` answers on these strings and `join` is what
+`net.JoinHostPort` answers on the resulting pairs (both re-checked on the Go side by `runeigh --witnesses`).
+Host: 10.0.0.9:10600 (mainnet). -/
 namespace Ex
 
 def parse : String → Option (String × String)
@@ -100,14 +154,24 @@ def parse : String → Option (String × String)
   | "10.0.0.6:8080" => some ("10.0.0.6", "8080")
   | _ => none
 
-def env : Env := { parse := parse, senderTarget := fun ip port => ip ++ ":" ++ port }
+def join (ip port : String) : String := ip ++ ":" ++ port
+
+def env : Env := { parse := parse, join := join, senderTarget := join }
+
+theorem env_roundTrip : env.RoundTrip := by
+  intro v ip port h
+  simp only [env] at h ⊢
+  unfold parse at h
+  split at h <;> first | (cases h; decide) | cases h
+
+theorem env_targetIsJoin : env.TargetIsJoin := fun _ _ => rfl
 
 def allReachable : String → String → Bool := fun _ _ => true
 
 def no3 : String → String → Bool := fun ip _ => ip != "10.0.0.3"
 
 /-- `NewNeighborhood(…, "10.0.0.9", "10600", max, seeds = {10.0.0.1:10600: 0}, …)` -/
-def init (max : Int) : State := State.init "10.0.0.9" "10600" "10.0.0.9:10600" max [("10.0.0.1:10600", 0)]
+def init (max : Int) : State := State.init env "10.0.0.9" "10600" max [("10.0.0.1:10600", 0)]
 
 end Ex
 
